@@ -187,8 +187,7 @@ def highest(
 
     readings = _get_clean_readings(candles, indicator, length, index_, True)
 
-    max_reading = max(readings, default=False)
-    return max_reading if max_reading is not False else None
+    return max(readings, default=None)
 
 
 def lowest(
@@ -204,9 +203,7 @@ def lowest(
 
     readings = _get_clean_readings(candles, indicator, length, index_, True)
 
-    min_reading = min(readings, default=False)
-
-    return min_reading if min_reading is not False else None
+    return min(readings, default=None)
 
 
 def highestbar(
